@@ -5,7 +5,7 @@ mode=$1; wd=$2; mod=$3; cfg=$4; shift 4
 cd "$wd" || exit 2
 CP=/opt/veriftools/tla/tla2tools.jar:/opt/veriftools/tla/CommunityModules-deps.jar
 if [ "$mode" = trace ]; then
-  exec java -XX:+UseSerialGC -XX:TieredStopAtLevel=1 -Xss32m -Xms256m -Xmx3g -cp $CP tlc2.TLC -workers 1 -metadir "$wd/meta.$$" -config "$cfg" "$@" "$mod"
+  exec java -XX:+UseSerialGC -XX:TieredStopAtLevel=1 -Xss512m -Xms256m -Xmx3g -cp $CP tlc2.TLC -workers 1 -metadir "$wd/meta.$$" -config "$cfg" "$@" "$mod"
 else
-  exec java -XX:+UseParallelGC -Xss64m -Xmx${TLC_HEAP:-12g} -cp $CP tlc2.TLC -metadir "$wd/meta.$$" -config "$cfg" "$@" "$mod"
+  exec java -XX:+UseParallelGC -Xss512m -Xmx${TLC_HEAP:-12g} -cp $CP tlc2.TLC -metadir "$wd/meta.$$" -config "$cfg" "$@" "$mod"
 fi
